@@ -7,6 +7,7 @@ import (
 	"os"
 	"runtime/debug"
 	"strings"
+	"time"
 
 	"golang.org/x/tools/go/ssa"
 
@@ -109,24 +110,30 @@ type Exec struct {
 	rtErrString types.Type
 	errorsNew   *ssa.Function
 
-	knownVals      map[int]uint64
-	decMemo        map[int][]*sym.Term
-	facts          map[int]bool
-	KeepScripts    bool
-	CrossCheck     func(id, script string, expect solver.Result)
-	MapOrder       func(ex *Exec, ents []*mapEntry) []*mapEntry
-	lastRecovered  *targetPanic
-	onceDone       map[*Value]bool
-	ParseFloatStub func(ex *Exec, fr *frame, s Str, bits int) Value
-	CoverDone      func(id string) bool
-	Params         map[string]int
-	AssertFilter   func(id string) bool
-	HangAsFailure  bool
-	initPhase      bool
-	rtypeT         types.Type
-	pfVars         map[string]*sym.Term
-	pfText         map[int][]*sym.Term
-	InitSkipped    []string
+	knownVals        map[int]uint64
+	varRange         map[int][2]uint64
+	decMemo          map[int][]*sym.Term
+	facts            map[int]bool
+	KeepScripts      bool
+	CrossCheck       func(id, script string, expect solver.Result)
+	MapOrder         func(ex *Exec, ents []*mapEntry) []*mapEntry
+	lastRecovered    *targetPanic
+	onceDone         map[*Value]bool
+	ParseFloatStub   func(ex *Exec, fr *frame, s Str, bits int) Value
+	CoverDone        func(id string) bool
+	Params           map[string]int
+	AssertFilter     func(id string) bool
+	HangAsFailure    bool
+	ArithFallback    bool
+	FallbackQueries  int64
+	FallbackResolved int
+	FallbackBy       map[string]int
+	FallbackTime     time.Duration
+	initPhase        bool
+	rtypeT           types.Type
+	pfVars           map[string]*sym.Term
+	pfText           map[int][]*sym.Term
+	InitSkipped      []string
 }
 
 type External func(ex *Exec, fr *frame, args []Value) Value
@@ -153,6 +160,7 @@ func New(prog *ssa.Program) (*Exec, error) {
 		inputSeq:     map[string]int{},
 		onceDone:     map[*Value]bool{},
 		knownVals:    map[int]uint64{},
+		FallbackBy:   map[string]int{},
 	}
 	z3, err := solver.Start("z3-4.8.12", []string{"z3", "-in"}, "(set-option :global-decls true)\n(set-option :timeout 30000)\n")
 	if err != nil {
@@ -179,6 +187,11 @@ func (ex *Exec) Close() {
 	if ex.z3 != nil {
 		ex.z3.Close()
 	}
+}
+
+// SetSolverTimeout sets the per-query soft timeout of the incremental solver.
+func (ex *Exec) SetSolverTimeout(ms int) {
+	ex.z3.Send(fmt.Sprintf("(set-option :timeout %d)\n", ms))
 }
 
 func (ex *Exec) Ctx() *sym.Ctx             { return ex.c }
@@ -657,11 +670,31 @@ func (ex *Exec) visit(fr *frame, instr ssa.Instruction) cont {
 		ex.store(p, copyVal(fr.get(in.Val)))
 	case *ssa.If:
 		c := fr.get(in.Cond).(*sym.Term)
-		succ := 1
-		if ex.decide(c) {
-			succ = 0
+		cur := fr.block
+		thenB, elseB := cur.Succs[0], cur.Succs[1]
+		last := cur
+		if !c.IsConst() && ex.noPhis(fr, thenB) {
+			// "case 'a', 'b', 'c':" is lowered to a chain of compare-and-branch
+			// blocks with the same target: decide the disjunction once instead of
+			// forking per listed value.
+			for {
+				nc, next, ok := ex.chainedCase(fr, elseB, thenB, last)
+				if !ok {
+					break
+				}
+				c = ex.c.Or(c, nc)
+				last = elseB
+				elseB = next
+				if c.IsConst() {
+					break
+				}
+			}
 		}
-		fr.prev, fr.block = fr.block, fr.block.Succs[succ]
+		if ex.decide(c) {
+			fr.prev, fr.block = last, thenB
+		} else {
+			fr.prev, fr.block = last, elseB
+		}
 		return kJump
 	case *ssa.Jump:
 		fr.prev, fr.block = fr.block, fr.block.Succs[0]
@@ -823,6 +856,53 @@ func scalarElems(a []Value) bool {
 		}
 	}
 	return true
+}
+
+func (ex *Exec) noPhis(fr *frame, b *ssa.BasicBlock) bool {
+	return fr.info.firstNonPhi[b] == 0
+}
+
+// chainedCase recognises a block of the form { t = x OP y ; if t goto target else next }
+// whose only predecessor is pred; it evaluates the comparison (pure) and
+// returns its condition and the else successor.
+func (ex *Exec) chainedCase(fr *frame, b, target, pred *ssa.BasicBlock) (*sym.Term, *ssa.BasicBlock, bool) {
+	if len(b.Preds) != 1 || b.Preds[0] != pred || len(b.Succs) != 2 || b.Succs[0] != target || b == target {
+		return nil, nil, false
+	}
+	var bin *ssa.BinOp
+	var iff *ssa.If
+	for _, in := range b.Instrs {
+		switch t := in.(type) {
+		case *ssa.DebugRef:
+		case *ssa.BinOp:
+			if bin != nil {
+				return nil, nil, false
+			}
+			bin = t
+		case *ssa.If:
+			iff = t
+		default:
+			return nil, nil, false
+		}
+	}
+	if bin == nil || iff == nil || iff.Cond != ssa.Value(bin) {
+		return nil, nil, false
+	}
+	switch bin.Op {
+	case token.EQL, token.NEQ, token.LSS, token.LEQ, token.GTR, token.GEQ:
+	default:
+		return nil, nil, false
+	}
+	// operands must be scalars (no faults possible in a comparison of scalars)
+	x, okx := fr.get(bin.X).(*sym.Term)
+	y, oky := fr.get(bin.Y).(*sym.Term)
+	if !okx || !oky {
+		return nil, nil, false
+	}
+	v := ex.binop(fr, bin.Op, bin.X.Type(), x, y, bin).(*sym.Term)
+	fr.set(bin, v)
+	ex.steps += 2
+	return v, b.Succs[1], true
 }
 
 func (ex *Exec) badCell(fr *frame, v Value, what string) {
